@@ -503,7 +503,12 @@ ASMJIT_FAVOR_SIZE Error init_func_detail(FuncDetail& func, const FuncSignature& 
               stack_offset += 8;
             }
             else {
-              uint32_t gp_reg_id = cc._passed_order[RegGroup::kGp].id[arg_index];
+              uint32_t gp_reg_id = Reg::kIdBad;
+
+              if (arg_index < CallConv::kMaxRegArgsPerGroup) {
+                gp_reg_id = cc._passed_order[RegGroup::kGp].id[arg_index];
+              }
+
               if (gp_reg_id != Reg::kIdBad) {
                 arg.assign_reg_data(RegType::kGp64, gp_reg_id);
               }
